@@ -78,7 +78,7 @@ def write_producers(chk, prog, c):
                 if s["k"] == "assign" and s["r"]["k"] == "agg" and s["r"]["ak"].get("def") == WRITE:
                     producers.append(norm(d_raw))
     producers = sorted(set(producers))
-    chk.floor("write-producers[%s]" % c, len(producers), 4)
+    chk.floor("write-producers[%s]" % c, len(producers), 2)
     for p in producers:
         f = (prog.fn_n.get(p) or [None])[0]
         ok = False
@@ -112,7 +112,7 @@ def write_producers(chk, prog, c):
         chk.inst("R13.1-assume-callers", "%s[%s]" % (e.caller, c), ok,
                  detail="`%s` calls Write::assume without holding a &Write on the container or issuing a barrier" % e.caller,
                  loc="%s:%s" % (e.file, e.line))
-    chk.floor("assume-call-sites[%s]" % c, n, 6)
+    chk.floor("assume-call-sites[%s]" % c, n, 3)
 
 
 def _static_on_param(prog, im):
@@ -146,7 +146,7 @@ def deref_write(chk, prog, c):
                         "other, unbarriered objects may share (use-after-free from safe code)" % (im["self_s"], why),
                  loc="%s:%s" % (im["span"]["f"], im["span"]["l"]),
                  sample={"impl": im["self_s"], "criterion": why, "predicates": [p["s"] for p in im["predicates"]]})
-    chk.floor("DerefWrite-impls[%s]" % c, n, 4)
+    chk.floor("DerefWrite-impls[%s]" % c, n, 2)
 
 
 def index_write(chk, prog, c):
@@ -170,7 +170,7 @@ def index_write(chk, prog, c):
                  detail="unreviewed `unsafe impl IndexWrite<%s> for %s`: Self must be an owning std container and the "
                         "index a std index type (no third-party Index impl may carry a Write)" % (it.get("s"), im["self_s"]),
                  loc="%s:%s" % (im["span"]["f"], im["span"]["l"]))
-    chk.floor("IndexWrite-impls[%s]" % c, n, {"default": 11, "nodefault": 10, "all": 12}.get(c, 10))
+    chk.floor("IndexWrite-impls[%s]" % c, n, 5)
 
 
 def unlock(chk, prog, c):
@@ -244,4 +244,4 @@ def lock_mutators(chk, prog, c):
                         "barrier" % (f["n"], hits[0].callee),
                  loc="%s:%s" % (f["span"]["f"], f["span"]["l"]), nontrivial=(reason or "").startswith("goes") or reason is None,
                  sample={"fn": f["n"], "mutator": hits[0].callee, "guard": reason})
-    chk.floor("lock-mutator-fns[%s]" % c, n, 7)
+    chk.floor("lock-mutator-fns[%s]" % c, n, 4)
